@@ -22,6 +22,14 @@ Theorem C13_request_refines_spec : forall root t r,
     (resp_status rep <> 0 -> t' = t).
 Proof. exact process_request_spec. Qed.
 
+(* the location [native_names] assigns to a name is the one get_native_path (C12) computes *)
+Theorem C13_location_is_native_path : forall root name,
+  native root name = match native_names root name with
+                     | Some p => Some (join root (render p))
+                     | None => None
+                     end.
+Proof. exact native_by_names. Qed.
+
 Theorem C13_failed_request_changes_nothing : forall root t r rep t',
   process_request root t r = Some (rep, t') -> resp_status rep <> 0 -> t' = t.
 Proof.
@@ -130,6 +138,7 @@ Check C13_first_failure_stops_execution : forall root pre t r post outs t1 rep t
   exec_requests root t (pre ++ r :: post) = Some (outs ++ rep :: map not_performed post, t1) /\ t2 = t1.
 
 Print Assumptions C13_request_refines_spec.
+Print Assumptions C13_location_is_native_path.
 Print Assumptions C13_failed_request_changes_nothing.
 Print Assumptions C13_one_response_per_request_in_order.
 Print Assumptions C13_first_failure_stops_execution.
